@@ -51,6 +51,14 @@ def run_camera_impl(case):
                 cam.change_facing(case["el"], case["rot"])
             else:
                 cam = CameraHardware(proto, CameraConfiguration(case["reach"], case["theta"], case["el"], case["rot"]))
+            if case.get("before"):
+                # the same camera has taken a picture before, of the scene as it was: a picture is a function of the scene
+                # at the moment it is taken
+                for i, q in enumerate(case["before"]):
+                    sim.get_node(i).position = tuple(q)
+                cam.take_picture()
+                for i, q in enumerate(case["nodes"]):
+                    sim.get_node(i).position = tuple(q)
             pic = cam.take_picture()
         except Exception as e:  # noqa: BLE001
             return ["error"], type(e).__name__
@@ -123,6 +131,26 @@ def gen_camera_case(R, integer=False):
         if R.random() < 0.5:
             case["shared"] = True
     return case
+
+
+def gen_two_pictures_case(R):
+    """a small integer scene photographed twice by the same camera, every node (the camera's too, sometimes) having moved by
+    one unit along one axis in between; short reaches, so that one unit matters"""
+    cam = (float(R.randint(-3, 3)), float(R.randint(-3, 3)), float(R.randint(-3, 3)))
+    n = R.randint(1, 5)
+    nodes = [(cam[0] + R.randint(-3, 3), cam[1] + R.randint(-3, 3), cam[2] + R.randint(-3, 3)) for _ in range(n)]
+    me = R.randrange(n + 1)
+    nodes.insert(me, cam)
+    before = []
+    for i, q in enumerate(nodes):
+        q = list(q)
+        if i != me or R.random() < 0.3:
+            k = R.randrange(3)
+            q[k] += R.choice([-1.0, 1.0])
+        before.append(tuple(q))
+    return {"reach": R.choice([1.5, 2.5, 3.5, 10.0]), "theta": R.choice([30.0, 60.0, 90.0, 200.0]),
+            "el": R.choice([0.0, 90.0, 180.0, 90.0]), "rot": R.choice([0.0, 90.0, 180.0, 270.0]), "me": me,
+            "nodes": [tuple(float(x) for x in q) for q in nodes], "before": before}
 
 
 def mon_C19(case, lines, exc=None):
